@@ -162,17 +162,23 @@ def guard(ctx, facts):
     cd = facts.bodies.get("report::hybrid::UniqueTagValidator::check_duplicate")
     ins = facts.bodies.get("report::hybrid::UniqueTagValidator::insert")
     cds = facts.bodies.get("report::hybrid::UniqueTagValidator::check_duplicates")
-    if not (cd and ins and cds):
-        return ctx.missing("GUARD", "UniqueTagValidator::{insert, check_duplicate, check_duplicates}")
-    ctx.count(bodies=3)
-    malsec.verdict_guard(ctx, "GUARD", "check_duplicate", cd, r"UniqueTagValidator::insert$", False, "DuplicateBytes", 1, "value already present")
-    g = malsec.guards(cd, r"UniqueTagValidator::insert$")
+    if not (cd and cds):
+        return ctx.missing("GUARD", "UniqueTagValidator::{check_duplicate, check_duplicates}")
+    ctx.count(bodies=3 if ins else 2)
+    # the set insertion may go through the private insert() wrapper or be written directly in check_duplicate
+    INS = r"UniqueTagValidator::insert$" if ins else r"HashSet.*::insert$"
+    malsec.verdict_guard(ctx, "GUARD", "check_duplicate", cd, INS, False, "DuplicateBytes", 1, "value already present")
+    g = malsec.guards(cd, INS)
     if g:
         arg = str(g[0][3][2][1]) if len(g[0][3][2]) > 1 else ""
         ctx.ob("GUARD", "check_duplicate:inserts-item-bytes", "unique_bytes" in arg, "the inserted key is item.unique_bytes()", site_of(cd, g[0][0]))
-    e = flow.expr_of(ins, {"cp": [0]})
-    ok = e[0] == "call" and e[1].endswith("HashSet::<T, S, A>::insert") or (e[0] == "call" and "HashSet" in e[1] and e[1].endswith("insert"))
-    ctx.ob("GUARD", "insert:is-set-insert", ok, "insert() returns HashSet::insert's `newly inserted` flag" if ok else f"insert() returns {str(e)[:100]}", site_of(ins))
+    if ins:
+        e = flow.expr_of(ins, {"cp": [0]})
+        ok = e[0] == "call" and e[1].endswith("HashSet::<T, S, A>::insert") or (e[0] == "call" and "HashSet" in e[1] and e[1].endswith("insert"))
+        ctx.ob("GUARD", "insert:is-set-insert", ok, "insert() returns HashSet::insert's `newly inserted` flag" if ok else f"insert() returns {str(e)[:100]}", site_of(ins))
+    else:
+        ok = bool(g) and "hash_set" in flow.field_names_in(g[0][3][2][0]) if g else False
+        ctx.ob("GUARD", "insert:is-set-insert", ok, "check_duplicate tests HashSet::insert's `newly inserted` flag on the validator's own set" if ok else "the tested insertion is not into the validator's set", site_of(cd))
     tfe = flow.find_calls(cds, re.compile(r"Iterator::try_for_each$"))
     q = flow.question_mark(cds, tfe[0][1]["d"][0]) if tfe else None
     direct = flow.find_calls(cds, re.compile(r"UniqueTagValidator::check_duplicate$"))
